@@ -53,6 +53,26 @@ def groups():
         D("both", "let both (k:int) =\n  (size (mk k), eval (Neg (Num k)))", deps=["size", "mk", "eval", "Tree", "Expr"], locals=["k"]),
         D("ext", "package_info ext =\n  type Handle\n  let Open: string->Handle\n  let Count: Handle->int", decls="^$", tva=0, istype=False),
         D("useExt", "let useExt (s:string) =\n  ext.Open s |> ext.Count", deps=["ext"], locals=["s"]),
+        # a user type with the SHORT name of an external type (unrelated to the package_info block), reached by a forward reference
+        D("Job", "type Job = {Who: Handle; Count: int}\nand Handle = {Id: int; Tag: string}", decls=type_decls("Job", "Handle"), istype=True, tva=0, fwd=1),
+        D("whoOf", "let whoOf (j:Job) =\n  j.Who.Id + j.Count", deps=["Job"], locals=["j"]),
+    ]}
+
+
+def collide():
+    """names that collide in tables keyed by an encoding of name and type arguments: Pair_int vs Pair<int>, Opt_int vs Opt<int>"""
+    return {"name": "collide", "imports": ["frt"], "defs": [
+        D("Pair", "type Pair<T> = {Key: T; Val: int}", decls="^Pair$", istype=True, tva=0),
+        D("Pair_int", "type Pair_int = {Key: string; N: int}", decls="^Pair_int$", istype=True, tva=0),
+        D("keyOf", "let keyOf (p:Pair_int) =\n  p.Key", deps=["Pair_int"], locals=["p"]),
+        D("sumOf", "let sumOf (q:Pair<int>) =\n  q.Key + q.Val", deps=["Pair"], locals=["q"]),
+        D("mkPair", "let mkPair (s:string) =\n  {Key=s; Val=1}", deps=["Pair"], locals=["s"]),
+        D("mkPI", "let mkPI (s:string) =\n  {Key=s; N=2}", deps=["Pair_int"], locals=["s"]),
+        D("Opt", "type Opt<T> =\n| Some of T\n| None", decls="^(New_)?Opt(_(Some|None))?(\\..*)?$", istype=True, tva=0),
+        D("Opt_int", "type Opt_int =\n| Full of string\n| Empty", decls="^(New_)?Opt_int(_(Full|Empty))?(\\..*)?$", istype=True, tva=0),
+        D("optLen", "let optLen (o:Opt_int) =\n  match o with\n  | Full s -> s\n  | Empty -> \"\"", deps=["Opt_int"], locals=["o", "s"]),
+        D("someInt", "let someInt (n:int) =\n  Some n", deps=["Opt"], locals=["n"]),
+        D("pairOpt", "let pairOpt (n:int) =\n  (someInt n, mkPair \"k\")", deps=["someInt", "mkPair"], locals=["n"]),
     ]}
 
 
@@ -84,7 +104,7 @@ def with_fillers(pkg, ntypes, nfuns):
 
 
 def packages(tier):
-    ps = [shapes(), groups()]
+    ps = [shapes(), groups(), collide()]
     ps.append(with_fillers(groups(), 13, 0))       # > 100 forward references over the run
     ps.append(with_fillers(shapes(), 0, 6))        # > 100 inference variables over the run
     return ps
